@@ -471,6 +471,9 @@ func (g *cacheGen) dataPath(target string, glob bool) (*pathDesc, pathDesc) {
 		}
 		full = append(full, e)
 	}
+	if r.Intn(6) == 0 {
+		full = append([]elemDesc{{Name: "p"}}, full...) // a container that is never itself a leaf (see prefixContainer)
+	}
 	split := r.Intn(len(full) + 1)
 	pre := &pathDesc{Target: target}
 	if r.Intn(3) == 0 {
